@@ -3,7 +3,7 @@ from ..facts import AnchorMissing, callee_def, op_place, op_const, is_bare
 from ..util import (SUBR, TEXTR, RTRAIT, ends, is_callee, field_accesses, site, fn_key,
                     consumer_of_ref, callee_method, dominated_by_true_edge, require,
                     closure_bodies_created_in, transitive_closures, edge_is_true, src_field,
-                    deep_atoms, has_call, has_field)
+                    deep_atoms, has_call, has_field, direct_place)
 
 EXPLANATION = (
     "Static decision of the annotation-stack discipline: each start_X pushes exactly one annotation "
@@ -45,7 +45,7 @@ def check(ctx):
     ctx.rule("C09-G", "the pushed style is unwound on the renderer it was applied to: the number of sub-renderers an arm pushes "
              "after apply equals the number it pops before unwind (a cell's style lives on the cell's own renderer)")
     for rid, fn in (("C09-A", rule_a), ("C09-B", rule_b), ("C09-C", rule_c), ("C09-D", rule_d),
-                    ("C09-E", rule_e), ("C09-F", rule_f), ("C09-G", rule_g)):
+                    ("C09-E", rule_e), ("C09-F", rule_f), ("C09-F", rule_f2), ("C09-G", rule_g)):
         ctx.guard(rid, fn)
 
 
@@ -570,6 +570,65 @@ def rule_f(ctx):
                   not has_call(a4, "TextDecorator::decorate_preformat_first"),
                   "C09-F", "add_text:(main=first, wrap=cont)", t["span"], b.id,
                   "main tag must carry the first-line annotation, wrap tag the continuation annotation")
+
+
+def rule_f2(ctx):
+    """The continuation flag: WrappedBlock::add_text starts with tag = pre_wrapped ? wrap_tag : main_tag and keeps
+    the two in step — wherever it switches the tag back to the first-line tag (hard newline) it clears
+    pre_wrapped, wherever it switches to the continuation tag it sets it.  A switch of the tag without the flag
+    lets the *next* text node of the same <pre> start with the wrong flag."""
+    F = ctx.facts
+    b = F.one("WrappedBlock::<T>::add_text")
+    # the tag local: multi-definition local whose definitions are copies of parameters 3 (main) and 4 (wrap)
+    cands = []
+    for l, loc in enumerate(b.locals):
+        ds = [r for r in b.defs()[l] if r[1] in b.reachable()]
+        if len(ds) >= 3 and all(r[0] == "stmt" and ("use" in (r[3].get("rv") or {}) or "ref" in (r[3].get("rv") or {})) for r in ds):
+            srcs = []
+            for r in ds:
+                rv = r[3]["rv"]
+                pl = direct_place(b, rv["use"]) if "use" in rv else direct_place(b, rv["ref"])
+                sd = b.defs().get(pl["l"]) if pl is not None else None
+                srcs.append(sd[0][1] if sd and len(sd) == 1 and sd[0][0] == "arg" else None)
+            if None not in srcs and len(set(srcs)) == 2:
+                cands.append((l, list(zip(ds, srcs)), min(srcs)))
+    if not ctx.check(len(cands) == 1, "C09-F", "add_text:tag-variable", b.span, b.id,
+                     "expected one local switching between the main and the wrap tag, found %d" % len(cands)):
+        return
+    l, ds, main_arg = cands[0]
+    n = 0
+    for r, src in ds:
+        x = r[1]
+        # straight-line neighbourhood of the assignment
+        region = {x}
+        cur = x
+        while len(b.pred(cur)) == 1 and len([s for s in b.succ(b.pred(cur)[0]) if not b.is_cleanup(s)]) == 1:
+            cur = b.pred(cur)[0]
+            region.add(cur)
+        cur = x
+        while True:
+            ss = [s for s in b.succ(cur) if not b.is_cleanup(s)]
+            if len(ss) != 1 or len(b.pred(ss[0])) != 1:
+                break
+            cur = ss[0]
+            region.add(cur)
+        stores = []
+        for y in region:
+            for st in b.stmts(y):
+                if st["k"] == "assign" and st["lhs"]["p"] and isinstance(st["lhs"]["p"][-1], dict) and st["lhs"]["p"][-1].get("n") == "pre_wrapped":
+                    k = op_const((st.get("rv") or {}).get("use") or {})
+                    stores.append(k.get("v") if k else "?")
+        reads_flag = any(isinstance(e, dict) and e.get("n") == "pre_wrapped" for c in b.cdeps_transitive(x)
+                         for e in ((edge_is_true(b, c[0], c[1])[1] or (None, {"p": []}))[1].get("p", [])
+                                   if (edge_is_true(b, c[0], c[1])[1] or (None,))[0] == "place" else []))
+        if reads_flag:
+            continue  # the initialisation `if self.pre_wrapped { wrap } else { main }`
+        n += 1
+        want = "false" if src == main_arg else "true"
+        ctx.check(stores == [want], "C09-F", "add_text:tag:=%s⇒pre_wrapped:=%s#%d" % ("main" if src == main_arg else "wrap", want, n),
+                  r[3]["span"], b.id, "the tag is switched to the %s tag here but pre_wrapped is set to %s in the same step"
+                  % ("first-line" if src == main_arg else "continuation", stores or "nothing"))
+    ctx.floor("C09-F", "tag switches in add_text", n, 2)
 
 
 def _stack_calls(b, blocks, which):
